@@ -510,10 +510,12 @@ class Check:
         return r
 
     # -- conformance -------------------------------------------------------------------
-    def trace(self, name, module, cfg, path, what="", boundary=None, nchunks=None, env=None, timeout=1700, balance=False, drift=False):
+    def trace(self, name, module, cfg, path, what="", boundary=None, nchunks=None, env=None, timeout=1700, balance=False, drift=False,
+              max_rejections=3):
         """drift=True: the trace spec compares the code with an implementation-shaped (R2) model on something the API does not
         promise (coordinates, orders); a rejection is reported as MODEL-DRIFT in the evidence and never fails the check."""
-        tr = validate_trace(module, cfg, path, nchunks=nchunks, boundary=boundary, env=env, timeout=timeout, balance=balance)
+        tr = validate_trace(module, cfg, path, nchunks=nchunks, boundary=boundary, env=env, timeout=timeout, balance=balance,
+                            max_rejections=max_rejections)
         if drift:
             self.ev.add_trace(name, tr, sample_from=path, what=what + " [conformance with an R2 model: rejections are MODEL-DRIFT, not violations]")
             log("  [drift] %-22s %-18s events=%d chunks=%d divergences=%d  %.1fs" % (name, module, tr.events, tr.traces, len(tr.rejections), tr.wall))
@@ -562,6 +564,7 @@ class Check:
         if self.ev.violations:
             log("%s %s: %d violation(s)" % (self.prop, self.tier, len(self.ev.violations)))
             return 1
-        log("%s %s: property held on everything explored (%d TLC states, %d impl events validated, %.0fs)" %
-            (self.prop, self.tier, self.ev.states, self.ev.events, time.time() - self.ev.t0))
+        log("%s %s: property held on everything explored%s (%d TLC states, %d impl events validated, %.0fs)" %
+            (self.prop, self.tier, " except for the %d known finding(s) printed above" % len(self.ev.known) if self.ev.known else "",
+             self.ev.states, self.ev.events, time.time() - self.ev.t0))
         return 0
